@@ -495,12 +495,13 @@ type vfC15Xfer struct {
 }
 
 type vfC15Step struct {
-	Op      string         `json:"op"` // connect | traffic | reauth | kick | close | vanish | server_close
+	Op      string         `json:"op"` // connect | traffic | reauth | kick | kick_reconnect | kick_offline | close | vanish | server_close
 	Conn    int            `json:"conn,omitempty"`
 	Conns   []int          `json:"conns,omitempty"`
 	Arg     string         `json:"arg,omitempty"`
 	Traffic []vfC15Xfer `json:"traffic,omitempty"`
 	Probe   int            `json:"probe,omitempty"` // kick: another live connection of the same user (0 = none)
+	New     []int          `json:"new,omitempty"`   // kick_reconnect / kick_offline: the two connections made afterwards
 }
 
 type vfC15CensusCase struct {
@@ -930,6 +931,87 @@ func (w *vfC15World) kick(st vfC15Step) {
 	}
 }
 
+// kickReconnect: POST /kick for a user, then ALL of the user's connections (st.Conns, possibly none:
+// the user has never been online) go away before any of them reports traffic. The user comes back
+// (st.New[0]); its first traffic report is the user's next report after the kick and must be refused,
+// which disconnects that connection. One more connection (st.New[1]) then reports and is accepted.
+func (w *vfC15World) kickReconnect(st vfC15Step, label string) {
+	u := st.Arg
+	w.rec.mark("kick " + u + " (" + st.Op + ")")
+	rep0, _ := w.rec.counts(u)
+	if err := vfC15Kick(w.stats, []string{u}); err != nil {
+		w.t.Fatalf("harness: %v", err)
+	}
+	w.k.Count("ev_"+st.Op, 1)
+	var wg sync.WaitGroup
+	for _, kx := range st.Conns {
+		c := w.conns[kx]
+		wg.Add(1)
+		go func() { defer wg.Done(); w.closeConn(c) }()
+		if c.ended == "" {
+			c.ended = "closed"
+		}
+	}
+	wg.Wait()
+	w.settle(1 * time.Second)
+	if rep1, _ := w.rec.counts(u); rep1 != rep0 {
+		w.k.Inconclusive(fmt.Sprintf("%s: user %s reported traffic between the kick and the disconnects", label, u))
+		return
+	}
+	w.census(label + ": kicked user's connections all gone")
+	first := w.connect(w.c.Conns[st.New[0]-1])
+	w.settle(1 * time.Second)
+	w.census(label + ": kicked user is back")
+	if !first.live() {
+		return
+	}
+	rep1, ref1 := w.rec.counts(u)
+	kind := "tcp_up"
+	if st.New[0]%2 == 0 {
+		kind = "udp"
+	}
+	w.traffic(vfC15Xfer{Conn: st.New[0], Kind: kind, N: 1500})
+	w.settle(1 * time.Second)
+	rep2, ref2 := w.rec.counts(u)
+	switch {
+	case rep2 == rep1:
+		w.k.Inconclusive(fmt.Sprintf("%s: c%d produced no traffic report", label, st.New[0]))
+		return
+	case ref2 == ref1:
+		w.k.Violation("census:kick-lost-across-reconnect", w.rep(map[string]any{"step": st, "user": u}),
+			"user %s was kicked while it had %d connection(s); they all disconnected without reporting traffic; the user reconnected (c%d) and its next %d traffic report(s) were all accepted — the kick was lost", u, len(st.Conns), st.New[0], rep2-rep1)
+	default:
+		first.ended = "kicked"
+		w.k.Count("ev_kick_survived_reconnect", 1)
+		if ref2-ref1 > 1 {
+			w.k.Violation("census:kick-refused-several-reports", w.rep(map[string]any{"step": st, "user": u}), "one kick of user %s refused %d reports", u, ref2-ref1)
+		}
+		if !w.disconnected(first) {
+			w.k.Violation("census:kicked-connection-not-disconnected", w.rep(map[string]any{"step": st, "user": u}),
+				"the report of c%d (user %s) was refused after a kick but the client still has a working connection", st.New[0], u)
+		}
+	}
+	w.census(label + ": after the reconnected user's first report")
+	second := w.connect(w.c.Conns[st.New[1]-1])
+	w.settle(1 * time.Second)
+	if !second.live() {
+		return
+	}
+	rep3, ref3 := w.rec.counts(u)
+	w.traffic(vfC15Xfer{Conn: st.New[1], Kind: "tcp_up", N: 1500})
+	w.settle(500 * time.Millisecond)
+	rep4, ref4 := w.rec.counts(u)
+	if rep4 == rep3 {
+		w.k.Inconclusive(fmt.Sprintf("%s: c%d produced no traffic report", label, st.New[1]))
+	} else if ref4 != ref3 {
+		second.ended = "kicked"
+		w.k.Violation("census:kick-refuses-more-than-once", w.rep(map[string]any{"step": st, "user": u}),
+			"after the kick of user %s had been consumed, a report of the user's next connection c%d was refused too (no new kick)", u, st.New[1])
+	} else {
+		w.k.Count("ev_kick_consumed_next_conn_allowed", 1)
+	}
+}
+
 // census compares, per user, the recorder's balance, GET /online and the harness's own table.
 func (w *vfC15World) census(label string) {
 	exp := map[string]int{}
@@ -996,7 +1078,9 @@ func (w *vfC15World) census(label string) {
 		if err != nil {
 			w.t.Fatalf("harness: %v", err)
 		}
+		w.cmu.Lock()
 		w.cl.add(m)
+		w.cmu.Unlock()
 		w.k.Count("ev_census_clear_polls", 1)
 	}
 }
@@ -1039,6 +1123,8 @@ func (w *vfC15World) step(i int, st vfC15Step) {
 		w.reauth(w.conns[st.Conn], st.Arg)
 	case "kick":
 		w.kick(st)
+	case "kick_reconnect", "kick_offline":
+		w.kickReconnect(st, label)
 	case "close":
 		var wg sync.WaitGroup
 		for _, k := range st.Conns {
@@ -1376,6 +1462,57 @@ func vfC15CensusGen(k *vfKit, caseID string) vfC15CensusCase {
 		c.Steps = append(c.Steps, vfC15Step{Op: "connect", Conn: next})
 		mark(next)
 	}
+	// every script: (a) kick a user that has 1..2 connections, all of which then close before any
+	// traffic, the user reconnects; (b) kick a user that has never been online, who then connects.
+	// Both are inserted at PRNG positions after the point where their victims are known to be alive,
+	// i.e. here at the end of the drawn steps (the connections are still those of `live`).
+	newPlan := func(user string) int {
+		kx := len(c.Conns) + 1
+		kind := "hy"
+		if r.Intn(2) == 0 {
+			kind = "raw"
+		}
+		c.Conns = append(c.Conns, vfC15ConnPlan{K: kx, Kind: kind, User: user})
+		return kx
+	}
+	byUser := map[string][]int{}
+	for _, kx := range liveList() {
+		byUser[c.Conns[kx-1].User] = append(byUser[c.Conns[kx-1].User], kx)
+	}
+	var cand []string
+	for _, u := range c.Users {
+		if n := len(byUser[u]); n >= 1 && n <= 2 {
+			cand = append(cand, u)
+		}
+	}
+	tail := []vfC15Step{}
+	if len(cand) > 0 {
+		u := cand[r.Intn(len(cand))]
+		st := vfC15Step{Op: "kick_reconnect", Arg: u, Conns: byUser[u]}
+		st.New = []int{newPlan(u), newPlan(u)}
+		tail = append(tail, st)
+	} else {
+		// nobody has 1..2 connections left: bring a fresh user online with one connection first
+		u := fmt.Sprintf("%s-user%d", caseID, len(c.Users)+1)
+		c.Users = append(c.Users, u)
+		kx := newPlan(u)
+		tail = append(tail, vfC15Step{Op: "connect", Conn: kx})
+		st := vfC15Step{Op: "kick_reconnect", Arg: u, Conns: []int{kx}}
+		st.New = []int{newPlan(u), newPlan(u)}
+		tail = append(tail, st)
+	}
+	{
+		u := fmt.Sprintf("%s-latecomer", caseID)
+		c.Users = append(c.Users, u)
+		st := vfC15Step{Op: "kick_offline", Arg: u}
+		st.New = []int{newPlan(u), newPlan(u)}
+		if r.Intn(2) == 0 {
+			tail = append(tail, st)
+		} else {
+			tail = append([]vfC15Step{st}, tail...)
+		}
+	}
+	c.Steps = append(c.Steps, tail...)
 	c.Steps = append(c.Steps, vfC15Step{Op: "server_close"})
 	return c
 }
@@ -1400,7 +1537,7 @@ func TestVerifC15Census(t *testing.T) {
 		}
 		for _, st := range c.Steps {
 			sig = append(sig, st.Op+"/"+st.Arg)
-			if st.Op == "kick" || st.Op == "vanish" {
+			if st.Op == "kick" || st.Op == "vanish" || st.Op == "kick_reconnect" {
 				interesting = true
 			}
 		}
